@@ -184,7 +184,9 @@ def _strategy(draw):
             "max_force": draw(st.sampled_from([50.0, 100.0, 300.0, 1e3, 1e4, 5e4, 1e5])),
             "grid_spacing": draw(st.sampled_from([0.2, 0.5]))}
     if draw(st.integers(0, 3)) == 0:
-        lattice = [[0.3 + i, 0.3 + j, 0.3 + k] for i in range(int(box[0])) for j in range(int(box[1]))
+        # user grids come at any precision (exported with six or more decimals as often as not)
+        off = draw(st.sampled_from([0.3, 0.3, 0.312345, 0.2871934]))
+        lattice = [[off + i, off + j, off + k] for i in range(int(box[0])) for j in range(int(box[1]))
                    for k in range(int(box[2]))]
         nmol = sum(c for _, c in spec["molecules"])
         npts = min(len(lattice), 3 * nmol + 10)
